@@ -143,6 +143,51 @@ def _one(args):
     return res
 
 
+WAKE_MODEL_PROPS = ("C01", "C05")
+
+
+def wake_model(tier):
+    """TLC on ProgressWake (the wake-up layer below MosaikSched): the invariants hold, and the negative control
+    (set() resolves only the first matching call) violates NoLostWakeup."""
+    out, secs, rc = tlc.run_tlc("MCProgressWake", cfg="MCProgressWake.cfg", workers=4, timeout=900)
+    ok = "No error has been found" in out
+    nout, nsecs, nrc = tlc.run_tlc("MCProgressWake", cfg="MCProgressWakeNeg.cfg", workers=2, timeout=300)
+    neg = "Invariant NoLostWakeup is violated" in nout
+    res = {"module": "ProgressWake (MCProgressWake.cfg)", "ok": ok, "states": tlc.stats(out)["distinct"], "secs": round(secs, 1),
+           "invariants": ["NoLostWakeup", "SoundResult", "ExactlyOnce", "CancelledAreParked", "Monotone"],
+           "negative_control_EagerOnly_violates_NoLostWakeup": neg}
+    if not ok:
+        print("MODEL-COUNTEREXAMPLE model=ProgressWake (specification only)")
+    if not neg:
+        print("MACHINERY negative control of ProgressWake did not fail")
+    return res
+
+
+def _wake_layer(cov, results, label):
+    """code -> spec for the wake-up layer on executions that carry a 'wake' record; counts go to cov, rejections are drift."""
+    try:
+        verdicts, info = mc.validate_wake(results)
+    except tlc.TLCError as e:
+        verdicts = [{"accepted": False, "at": 0, "what": "ProgressTrace gave no verdict: " + str(e).splitlines()[0][:120]} for _ in results]
+        info = {"states": 0, "generated": 0, "secs": 0.0, "events": 0}
+    w = cov.setdefault("wake_up_layer", {"traces_accepted": 0, "traces_rejected": 0, "traces_unavailable": 0, "calls_validated": 0, "states": 0, "drift": []})
+    w["calls_validated"] += info.get("events", 0)
+    w["states"] += info["states"]
+    for r, v in zip(results, verdicts):
+        r.pop("wake", None)
+        if v["accepted"] is None:
+            w["traces_unavailable"] += 1
+            if len(w["drift"]) < 3 and "too long" not in v["what"]:
+                w["drift"].append({"where": label, "at": 0, "what": v["what"]})
+        elif v["accepted"]:
+            w["traces_accepted"] += 1
+        else:
+            w["traces_rejected"] += 1
+            if len(w["drift"]) < 5:
+                w["drift"].append({"where": label, "at": v["at"], "what": v["what"]})
+    return w
+
+
 def model_part(prop, tier, seed):
     cfgs = [(n, o, False) for n, o in CONFIGS.get(prop, [])]
     if tier == "thorough":
@@ -211,6 +256,7 @@ def model_part(prop, tier, seed):
                     if not v["accepted"] and len(cov["drift"]) < 5:
                         cov["drift"].append({"model": res["model"], "overrides": res["overrides"], "at": v["at"], "what": v["what"],
                                              "schedule": c["policy"]["script"][:20]})
+                _wake_layer(cov, [r for _, r in pairs], res["model"])
                 for c, r in pairs:
                     r.pop("internal", None)
                 extra_pairs += pairs
@@ -223,8 +269,13 @@ def model_part(prop, tier, seed):
                     cov["vacuous_actions"].append([res["model"], a])
         cov["configs"].append(entry)
     cov["model_transferable"] = cov["internal_traces_rejected"] == 0 and not cov["model_counterexamples"]
+    if prop in WAKE_MODEL_PROPS:
+        cov["wake_up_model"] = wake_model(tier)
+        cov["states"] += cov["wake_up_model"]["states"]
     for d in cov["drift"]:
         print(f"DRIFT model={d['model']} at={d['at']} what={d['what']} (code and specification MosaikSched differ; not a verdict)")
+    for d in cov.get("wake_up_layer", {}).get("drift", []):
+        print(f"DRIFT wake-up layer where={d['where']} at={d['at']} what={d['what']} (mosaik/progress.py and specification ProgressWake differ; not a verdict)")
     for m in cov["model_counterexamples"]:
         print(f"MODEL-COUNTEREXAMPLE model={m['model']} violated={m.get('violated')} (specification only; reproduced on the code only if a VIOLATION line follows)")
     return cov, extra_pairs
@@ -312,6 +363,15 @@ def random_conformance(prop, tier, seed, fam=None):
                     stats["drift"].append({"scn": v, "at": vd["at"], "what": vd["what"], "delivered": r["delivered"][:30], "outcome": r["outcome"]})
                 r.pop("internal", None)
             pairs_all += pairs
+    # the wake-up layer of the same executions (one TLC run per 400 executions, any scenarios)
+    wcov = {}
+    rs = [r for _, r in pairs_all]
+    for i in range(0, len(rs), 400):
+        _wake_layer(wcov, rs[i:i + 400], "random-scenario conformance")
+    stats["wake_up_layer"] = wcov.get("wake_up_layer", {})
+    stats["states"] += stats["wake_up_layer"].get("states", 0)
+    for d in stats["wake_up_layer"].get("drift", []):
+        print(f"DRIFT wake-up layer where={d['where']} at={d['at']} what={d['what']} (mosaik/progress.py and specification ProgressWake differ; not a verdict)")
     for d in stats["drift"]:
         print(f"DRIFT random-scenario conformance at={d['at']} what={d['what']} (code and specification MosaikSched differ; not a verdict)")
     return stats, pairs_all
